@@ -227,6 +227,46 @@ theorem C02_steps_cost (ext : Bool) (dss : List (List Call)) (hx : ∀ ds ∈ ds
       exact ((hx ds hds _ hdd) q hq).1
     | _ => simp [minOf] at he
 
+/-- **C02 (several steps WITH externals, extension on: optimisation)** -/
+theorem C02_steps_cost_ext (dss : List (List Call)) (hx : ∀ ds ∈ dss, ∀ d ∈ ds, PlainOk d) (hnh : ∀ ds ∈ dss, ∀ d ∈ ds, isHeu d = false) :
+    ∃ E : I → I,
+      (∀ X, Stable (progOf dss.flatten) X →
+        Stable (progOf (convert true (stepsCalls dss)).out) (E X) ∧ E X 1 = false ∧ restrict (convert true (stepsCalls dss)) (E X) = X) ∧
+      (∀ X', Stable (progOf (convert true (stepsCalls dss)).out) X' → X' 1 = false → E (restrict (convert true (stepsCalls dss)) X') = X') ∧
+      (∀ X p, costAt (convert true (stepsCalls dss)).out p (E X) = costAt dss.flatten p X - negM (minsOf dss.flatten) p) := by
+  obtain ⟨defs, hj, _, hmo⟩ := C02_steps_minimize true dss hx hnh (Or.inr rfl)
+  have ok := ctx_ok hj
+  have tr2 := steps_trans_ext_of dss hx hj
+  refine ⟨fun X => (ctxOf (convert true (stepsCalls dss)) defs).E X X, ?_, ?_, ?_⟩
+  · intro X hs
+    have hs' := (stable_filter_kept_app _ _ X).mpr hs
+    obtain ⟨h1, h2, h3⟩ := translation_stable ok tr2 hs'
+    refine ⟨h1, h2, ?_⟩
+    rw [restrict_eq _ hj.inv defs]; exact h3
+  · intro X' hs h1
+    obtain ⟨h2, h3⟩ := translation_stable_back ok tr2 X' hs h1
+    rw [restrict_eq _ hj.inv defs]
+    exact h3.symm
+  · intro X p
+    obtain ⟨TT, t1, t2, t3⟩ := hmo.tab
+    unfold costAt
+    rw [t1 _ (agree_final _ hj.inv)]
+    have := costM_ren ok X TT t3 p
+    refine this.trans ?_
+    rw [t2 X p]
+    apply costM_flip
+    intro pl hpl q hq
+    have hmem : ∃ d ∈ dss.flatten, minOf d = some pl := by
+      simp only [minsOf, List.mem_filterMap] at hpl; exact hpl
+    obtain ⟨d, hd, he⟩ := hmem
+    obtain ⟨ds, hds, hdd⟩ := List.mem_flatten.mp hd
+    cases d with
+    | minimize prio lits =>
+      simp only [minOf, Option.some.injEq] at he
+      subst he
+      exact ((hx ds hds _ hdd) q hq).1
+    | _ => simp [minOf] at he
+
 /-! #### non-vacuity: two steps; the name given in step 1 stays shown on its condition in step 2, a second name joins it -/
 def exStepsO : List (List Call) :=
   [[.rule 1 [1, 2] [], .output [97] [1, -2]],          -- {x1; x2}.  #output a : x1, not x2.
